@@ -261,7 +261,9 @@ func c19Body(c *ev.Ctx) {
 		// ---- stage verify ------------------------------------------------------------------
 		for _, mode := range []string{"insertion", "deletion"} {
 			e := envs[mode]
-			hashes := map[string]string{"emitted": "0x" + e.hash.Text(16), "plus1": "0x" + new(big.Int).Add(e.hash, ref.B(1)).Text(16), "plusr": "0x" + new(big.Int).Add(e.hash, ref.R).Text(16), "decimal": e.hash.String(), "zz": "zz", "absent": ""}
+			hashes := map[string]string{"emitted": "0x" + e.hash.Text(16), "plus1": "0x" + new(big.Int).Add(e.hash, ref.B(1)).Text(16), "plusr": "0x" + new(big.Int).Add(e.hash, ref.R).Text(16), "decimal": e.hash.String(), "zz": "zz", "absent": "",
+				// the same number with one / two leading zero digits (an odd and an even number of hex digits)
+				"lead0": "0x0" + e.hash.Text(16), "lead00": "0x00" + e.hash.Text(16)}
 			proofs := map[string][]byte{"emitted": e.proof, "braces": []byte("{}"), "empty": {}, "garbage": []byte("not a proof")}
 			var pdoc map[string]any
 			json.Unmarshal(e.proof, &pdoc)
@@ -461,7 +463,7 @@ func c19Body(c *ev.Ctx) {
 	c.Set("valid_proofs_with_a_short_coordinate_fed_to_verify", shortVariants)
 	c.Set("verify_cells_invalid", verifyRejected)
 	c.Set("exhaustive", len(c.CapsHit()) == 0)
-	c.Set("rule", "cells of the decision table on the real binary: prove: (--mode flag in {right, other, bogus, absent}) x (keys in {right, other mode's, missing, truncated}) x (params in {own, other mode's}) + {garbage, empty, perturbed} params with right mode/keys; verify: the same (mode x keys) product with the emitted hash/proof + (hash in {emitted, +1, +r, decimal, zz, absent}) x (proof in {emitted, 8 single-digit tamperings, {}, empty, garbage}); histories: convert-to-raw then prove/verify across both files, repeated gen>prove>verify, verify without proof, other system's proof, export-solidity; setup/gen-test-params/r1cs with unknown or missing mode. Oracle: exit 0 <=> an independently decoded proof verifies in-process for the hash mod r under the given keys; prove's stdout is exactly one JSON value + newline")
+	c.Set("rule", "cells of the decision table on the real binary: prove: (--mode flag in {right, other, bogus, absent}) x (keys in {right, other mode's, missing, truncated}) x (params in {own, other mode's}) + {garbage, empty, perturbed} params with right mode/keys; verify: the same (mode x keys) product with the emitted hash/proof + (hash in {emitted, +1, +r, decimal, with one/two leading zero digits, zz, absent}) x (proof in {emitted, 8 single-digit tamperings, {}, empty, garbage}); histories: convert-to-raw then prove/verify across both files, repeated gen>prove>verify, verify without proof, other system's proof, export-solidity; setup/gen-test-params/r1cs with unknown or missing mode. Oracle: exit 0 <=> an independently decoded proof verifies in-process for the hash mod r under the given keys; prove's stdout is exactly one JSON value + newline")
 	c.Assume("stderr content is free; verify's exit status is judged by what the given keys accept, the --mode flag only has to be a known mode")
 }
 
